@@ -296,6 +296,16 @@ def _run_sync(kind, codec, pieces):
     return [b''.join(o) for o in outs], b''.join(final), st['ended'], err_at[0]
 
 
+def _as_buffer(c, j):
+    """the same bytes as another bytes-like object (a bytearray filled by readinto, a
+    memoryview slice of a larger buffer), by position"""
+    if j % 4 == 1:
+        return bytearray(c)
+    if j % 4 == 3:
+        return memoryview(bytes(c))
+    return c
+
+
 def run_compress(codec, chunks):
     """-> (bytes emitted per item, bytes emitted at completion, ended)"""
     from rx.subject import Subject
@@ -311,10 +321,10 @@ def run_compress(codec, chunks):
     cur, st = _observe(subj, op)
     poke = _sibling(op, codec, 'c')
     couts = []
-    for c in chunks:
+    for j, c in enumerate(chunks):
         poke()
         try:
-            subj.on_next(c)
+            subj.on_next(_as_buffer(c, j + _PULL[0]))
         except Exception as e:
             if st['ended'] == 'open':
                 st['ended'] = 'raised:%s' % type(e).__name__
@@ -345,7 +355,7 @@ def run_decompress(codec, pieces):
     for j, c in enumerate(pieces):
         poke()
         try:
-            subj.on_next(c)
+            subj.on_next(_as_buffer(c, j + _PULL[0]))
         except Exception as e:
             if st['ended'] == 'open':
                 st['ended'] = 'raised:%s' % type(e).__name__
@@ -425,7 +435,21 @@ def record(codec, recipes, feed_sizes=None, chunking=None, truncate=None):
         pieces.append(wire[p:p + n])
         p += n
     if p > len(wire):
-        raise C.MachineryError('feeds exceed the wire: %r > %d' % (feed_sizes, len(wire)))
+        if cended == 'completed':
+            raise C.MachineryError('feeds exceed the wire: %r > %d' % (feed_sizes, len(wire)))
+        # the compressor under test failed: what it produced is cut as far as it goes, the
+        # trace is judged (and rejected) on how the compression ended
+        clipped, p = [], 0
+        for n in feed_sizes:
+            n = max(0, min(n, len(wire) - p))
+            clipped.append(n)
+            p += n
+        feed_sizes = clipped
+        pieces = []
+        p = 0
+        for n in feed_sizes:
+            pieces.append(wire[p:p + n])
+            p += n
     rec = {'codec': codec, 'recipes': recipes, 'chunks': chunks, 'plain': plain,
            'couts': couts, 'cfinal': cfinal, 'cended': cended, 'wire': wire,
            'feed_sizes': list(feed_sizes), 'pieces': pieces, 'truncb': p}
